@@ -498,8 +498,6 @@ class DAGRunConcurrentManager(DAGRunManagerLike):
         if len(list_node_ids) == 0:
             return None
 
-        local_tasks = []
-
         for node_id in list_node_ids:
 
             await self._lock_manager.wait_for_condition(
@@ -509,7 +507,10 @@ class DAGRunConcurrentManager(DAGRunManagerLike):
 
             if dag.is_oneof and self.__has_subgraph_error(dag):
                 logger.debug('An error has been found in the %s', dag)
-                self._stop_coro_tasks(*local_tasks)
+
+                # The tasks that have been started for this subgraph must not be cancelled here: the nodes are marked
+                # as processed, so a node which is also needed by another consumer (the next OneOf candidate or
+                # the main DAG) would never get a result. Everything that is still running is stopped by run().
 
                 # We must unlock descendants because the next OneOf subgraph should start the process.
                 # Otherwise, the entire subgraph will be locked.
@@ -529,7 +530,7 @@ class DAGRunConcurrentManager(DAGRunManagerLike):
                     dag=dag,
                 )
 
-            local_tasks.append(self._create_task(coro_to_run, name=node_id))
+            self._create_task(coro_to_run, name=node_id)
 
         logger.debug('Await for result for %s the dag %s', dag.dest, dag)
 
